@@ -69,7 +69,11 @@ EXPLANATION = ("Theorems (Props/C20.lean, about the definitions drv_c20 runs; ev
                "statement_needs_semicolon + taxa_block_needs_end (a DIMENSIONS/TAXLABELS/LINK/FORMAT statement or TAXA block that is cut "
                "short cannot return: with termination it is a parse error), nexus_matrix_dims (one MATRIX call), "
                "nexus_result_dims (every matrix of a successful readNexus result is rectangular with positive width), rowFor_in_range, "
-               "charset_positions_in_range; eof_is_parse_error (dichotomy ok / parse error on every text); newick_steps_linear is about a ghost "
+               "charset_positions_in_range; NEW (wave 2) phylip_never_accepts_ragged (an accepted PHYLIP matrix has all rows of the declared NCHAR, in every mode - the "
+               "incomplete-last-block class); the refusal KIND of a NEXUS read is now part of the driver's answer and compared with the exception class "
+               "(TooManyTaxaError, UndefinedTaxonError, other): reader_loop_error_rule (loop rule with an error side), "
+               "translate_without_ntax_never_undefined_taxon (no NTAX declared => TRANSLATE never refuses with UndefinedTaxonError), "
+               "too_many_taxa_needs_ntax; eof_is_parse_error (dichotomy ok / parse error on every text); newick_steps_linear is about a ghost "
                "counter defined next to run.  Tie A bridges (regenerated Gen/C20Consts.lean = the model's own definitions): block_names_bridge, "
                "end_keywords_bridge, datatype_bridge, phylip_width_bridge, reader_defaults_bridge.  "
                "Not proved: that rowLen/labelsOf/nsIdx never take their getD defaults inside the NEXUS matrix code (only the row index is guarded); "
@@ -1398,6 +1402,9 @@ NEWICK_KINDS = {"UnexpectedEndOfStreamError": "eos", "UnterminatedQuoteError": "
                 "NewickReaderDuplicateTaxonError": "duplicate"}
 
 
+NEXUS_KINDS = {"TooManyTaxaError": ":toomany", "UndefinedTaxonError": ":undefined"}
+
+
 def queue_model(ctx, dendropy, case, klass, summary, st, detail=""):
     # (on a hang / internal error nothing is queued: the model is of the repaired control flow)
     schema = case["schema"]
@@ -1453,7 +1460,8 @@ def queue_model(ctx, dendropy, case, klass, summary, st, detail=""):
                 "/".join(".".join(str(len(cs.character_indices)) for cs in cm.character_subsets.values())
                          for cm in obj_of(summary).char_matrices))
         elif klass == "parse":
-            got = "parse"
+            # the refusal kinds the reader names: a label beyond the declared NTAX, a TRANSLATE label the namespace lacks
+            got = "parse" + NEXUS_KINDS.get(detail.split(":")[0], "")
         else:
             got = None
         if got is not None:
